@@ -267,6 +267,109 @@ fn power_pairs(l: Layout, b: &[u128]) -> (Vec<u128>, Vec<(u128, std::sync::Arc<V
 /// panic in the checking build), so its thorough domain is thinner where the full one is most expensive: the
 /// 16-bit binary domain is V16 x B_quick and the 128-bit one B_quick x B_quick. The full thorough
 /// domains run in both builds under C01/C02/C06/C07. `VERIF_C11_FULL=1` restores them here.
+/// Operand pairs constructed from the *intermediate values* of the 128-bit algorithms (w = 128 only):
+/// (i) multiplication: for a few left operands a = (lh, ll) and right low halves rl, the right high half rh that puts the
+///     sum of the two cross products lh*rl + ll*rh just below / just above a multiple of 2^128 (the carry out of the
+///     middle column), and for squares the lh that does the same for 2*lh*ll, with every sign combination;
+/// (ii) division: dividends built from a chosen quotient q (half-digits 0, 1, B/2, B-1, B-2 ...) and a divisor whose low
+///     half exceeds its high half, a = floor(q*b / 2^f) + {0, 1}: quotient digits at the top of their range, where the
+///     digit estimate of the long division is B or B+1 and has to be taken back once or twice.
+fn constructed_pairs(l: Layout) -> Vec<(u128, std::sync::Arc<Vec<u128>>)> {
+    use std::sync::Arc;
+    let mut out: Vec<(u128, Arc<Vec<u128>>)> = vec![];
+    if l.w != 128 {
+        return out;
+    }
+    let m = vcore::lay::mask(128);
+    let b64 = Z::pow2(64);
+    let lows: [u128; 6] = [0xffff_ffff_ffff_ffff, 0xffff_ffff_ffff_fffd, 0x8000_0000_0000_0001, 0xdead_beef_cafe_f00d, 0x5555_5555_5555_5555, 0xffff_ffff_fdb9_7532];
+    let signs = |x: u128| -> Vec<u128> { if l.signed { vec![x, x.wrapping_neg() & m] } else { vec![x] } };
+    // (i) squares: 2*lh*ll just below k*2^128
+    for &ll in &lows {
+        for k in 1u64..=6 {
+            let lh = Z::pow2(127).mul_small(k).divrem_trunc(Z::from_u128(ll)).0;
+            for d in [0i128, 1, -1] {
+                let lhd = lh.add(Z::from_i128(d));
+                if lhd.is_neg() || !lhd.lt(&b64) {
+                    continue;
+                }
+                let a = (lhd.low128() << 64) | ll;
+                for x in signs(a) {
+                    out.push((x, Arc::new(signs(a))));
+                }
+            }
+        }
+    }
+    // (i) general: lh*rl + ll*rh next to k*2^128
+    let lefts: [u128; 4] = [0x8000_0000_0123_4567_ffff_ffff_fdb9_7532, 0xdead_beef_cafe_f00d_1234_5678_9abc_def1, 0x7fff_ffff_ffff_ffff_8000_0000_0000_0001, 0x0123_4567_89ab_cdef_fedc_ba98_7654_3211];
+    for &a in &lefts {
+        let (lh, ll) = (a >> 64, a & 0xffff_ffff_ffff_ffff);
+        let mut partners = vec![];
+        for &rl in &lows {
+            for k in 1u64..=3 {
+                let t = Z::pow2(128).mul_small(k).sub(Z::from_u128(lh).mul(Z::from_u128(rl)));
+                if t.is_neg() {
+                    continue;
+                }
+                let rh = t.divrem_trunc(Z::from_u128(ll)).0;
+                for d in [0i128, 1] {
+                    let r = rh.add(Z::from_i128(d));
+                    if !r.is_neg() && r.lt(&b64) {
+                        partners.extend(signs((r.low128() << 64) | rl));
+                    }
+                }
+            }
+        }
+        let partners = Arc::new(partners);
+        for x in signs(a) {
+            out.push((x, partners.clone()));
+        }
+    }
+    // (ii) division: constructed quotients over divisors with lo > hi
+    let hm: u128 = 0xffff_ffff_ffff_ffff;
+    let digits: [u128; 6] = [0, 1, hm >> 1, (hm >> 1) + 1, hm, hm - 1];
+    let divisors: [u128; 6] = [
+        0x0000_0000_0000_000d_0000_0000_0000_0000,
+        0x9e37_79b9_7f4a_7c15_f39c_c060_5ced_c834,
+        0x0000_0000_0000_0001_ffff_ffff_ffff_ffff,
+        0x0000_0000_dead_beef_ffff_ffff_0000_0001,
+        0x7fff_ffff_ffff_fffe_ffff_ffff_ffff_ffff,
+        0x0000_0000_0000_0003_0000_0000_0000_0005,
+    ];
+    let top = if l.signed { 127 } else { 128 };
+    for &b in &divisors {
+        for sh in [0u32, 1, 30, 62] {
+            let bz = Z::from_u128(b >> sh);
+            if bz.is_zero() || !bz.lt(&Z::pow2(top)) {
+                continue;
+            }
+            let mut dividends = vec![];
+            for &qh in &digits {
+                for &ql in &digits {
+                    let q = Z::from_u128((qh << 64) | ql);
+                    // a * 2^f / b ~ q  <=>  a ~ q * b / 2^f
+                    let a0 = q.mul(bz).shr_floor(l.frac);
+                    for d in [0i128, 1] {
+                        let a = a0.add(Z::from_i128(d));
+                        if !a.is_zero() && a.lt(&Z::pow2(top)) {
+                            dividends.push(a.low128());
+                        }
+                    }
+                }
+            }
+            dividends.sort();
+            dividends.dedup();
+            let bs = Arc::new(signs(bz.low128()));
+            for a in dividends {
+                for x in signs(a) {
+                    out.push((x, bs.clone()));
+                }
+            }
+        }
+    }
+    out
+}
+
 fn domain(l: Layout, tier: Tier, c11: bool) -> Domain {
     use std::sync::Arc;
     let thin = c11 && tier == Tier::Thorough && std::env::var("VERIF_C11_FULL").is_err();
@@ -320,6 +423,7 @@ fn domain(l: Layout, tier: Tier, c11: bool) -> Domain {
                 }
             }
             let mut rel = related_pairs(l, &b);
+            rel.extend(constructed_pairs(l));
             if btier == Tier::Quick {
                 let (pv, prel) = power_pairs(l, &b);
                 rel.extend(prel);
